@@ -180,7 +180,8 @@ class Interp:
         if isinstance(v, (SArr, SRecList)):
             return self.branch(self.term(v.n) > 0)
         if isinstance(v, STimedelta):
-            return self.branch(self.term(v.total) != 0)
+            from . import libdt
+            return self.branch(self.term(libdt.td_total(self, v)) != 0)
         if isinstance(v, Unknown):
             b = z3.Bool(self.p.fresh_name('unk'))
             return self.branch(b)
@@ -751,6 +752,10 @@ class Interp:
         bounds = [self.eval(a, fr) for a in node.args[1:]]
         if len(bounds) != 2 * len(names):
             raise Unsupported('quantifier bounds: forall(lambda a,b: ..., lo_a, hi_a, lo_b, hi_b)')
+        for i in range(len(names)):
+            lo, hi = bounds[2 * i], bounds[2 * i + 1]
+            if isinstance(lo, int) and isinstance(hi, int) and lo >= hi:
+                return z3.BoolVal(which == 'forall')
         vars_ = []
         rng = []
         sub = Frame(fr.func, fr.module, {}, cls=fr.cls, parent=fr)
